@@ -166,6 +166,44 @@ def run(ctx):
                     ctx.fail("new_parents context is not the chain of ancestors in the copy", {"tree": d, "path": list(path)})
                     break
 
+        # ---- one long-lived transformer / visitor, the SAME node objects met again under other ancestors (a sub-query
+        # transformed alone, then embedded in a larger query): the context must be the true chain of ancestors of
+        # this traversal (seeded C08-G: parents remembered per node id across traversals)
+        if len(objs) >= 2 and rng.random() < 0.5:
+            seen = []
+
+            class RecT(I.visitor.TreeTransformer):
+                def generic_visit(self, node, context):
+                    seen.append((id(node), [id(p) for p in context.get("parents", ())]))
+                    yield from super().generic_visit(node, context)
+
+            class RecV(I.visitor.TreeVisitor):
+                def generic_visit(self, node, context):
+                    seen.append((id(node), [id(p) for p in context.get("parents", ())]))
+                    yield from super().generic_visit(node, context)
+            for inst, run_ in ((RecT(track_parents=True), lambda i, t: i.visit(t)),
+                               (RecV(track_parents=True), lambda i, t: list(i.visit_iter(t, context={})))):
+                sub, other = objs[0], objs[1]
+                ids = [id(n) for n in trees.all_nodes(sub)] + [id(n) for n in trees.all_nodes(other)]
+                if len(ids) != len(set(ids)):
+                    continue        # (the identity-based oracle needs distinct node objects)
+                try:
+                    run_(inst, sub)
+                    emb = I.tree.AndOperation(I.tree.Not(sub), other)
+                    del seen[:]
+                    run_(inst, emb)
+                except Exception as e:
+                    ctx.fail("a reused %s raised %s" % (type(inst).__name__, type(e).__name__), {"tree": tlist[0]})
+                    continue
+                ctx.count("same objects under other ancestors")
+                idp = trees.id_paths(emb)
+                for nid, pids in seen:
+                    tp = idp.get(nid)
+                    if tp is None or [idp.get(x) for x in pids] != [tp[:k] for k in range(len(tp))]:
+                        ctx.fail("a reused %s supplies ancestors of an earlier traversal (same node objects embedded in a "
+                                 "larger tree)" % type(inst).__name__, {"tree": tlist[0], "other": tlist[1]})
+                        break
+
     if ctx.model_ok:
         ans = common.ask_model(reqs)
         for r, a, e in zip(reqs, ans, expected):
